@@ -220,6 +220,21 @@ FORDER = False
 RELABEL = False     # axes are first built with their labels rotated, looked up once, then relabelled in place (stale caches)
 
 
+# dimension names that are digit strings, none at its own position in the usual orders: a name must never be read as a position
+DIGIT_NAMES = {"x": "1", "y": "0", "z": "3", "w": "2", "p": "5", "q": "4"}
+_DIGIT_BACK = {v: k for k, v in DIGIT_NAMES.items()}
+
+
+def digit_dims(obj, back=False):
+    """rename the dimensions of a DimArray in place: x, y, .. -> '1', '0', .. (back=True: the inverse); other objects pass through"""
+    if isinstance(obj, DimArray):
+        table = _DIGIT_BACK if back else DIGIT_NAMES
+        for ax in obj.axes:
+            if ax.name in table:
+                ax.name = table[ax.name]
+    return obj
+
+
 def warm(arr):
     for ax in arr.axes:
         if hasattr(ax, "is_monotonic"):
